@@ -178,6 +178,13 @@ func (w *world) history(only string) {
 	for i := 0; i < 3; i++ { // short blocks: several reward / compounding rounds
 		w.begin(5)
 		w.ops(4, only)
+		if i == w.hist%3 { // genesis export / permuted import with pending claims of every exported kind, then new ids are drawn
+			w.genesisRoundTrip()
+			for _, d := range []int{1 + w.r.Intn(3), 1 + w.r.Intn(3)} {
+				w.tx("undelegate", false, []sdk.Msg{mstypes.NewMsgUndelegate(w.astr(d), w.valStr, sdk.NewCoins(ukex(100+int64(w.r.Intn(2000)))))}, []int{d})
+			}
+			w.requestVerify([]int{0, 3}[w.r.Intn(2)], 1+w.r.Intn(2))
+		}
 		w.end()
 	}
 	w.begin(700)
@@ -499,6 +506,11 @@ func sortStrings(a []string) {
 func (w *world) opTable() map[string]opFn {
 	app := w.c.App
 	return map[string]opFn{
+		"h:genesis-round-trip": func(w *world) {
+			if w.r.Chance(35) {
+				w.genesisRoundTrip()
+			}
+		},
 		"h:bank-send": func(w *world) {
 			s := w.r.Intn(nAcc)
 			w.tx("bank-send", false, []sdk.Msg{banktypes.NewMsgSend(w.addr(s), w.addr(w.other(s)), sdk.NewCoins(ukex(1+int64(w.r.Intn(100000)))))}, []int{s})
